@@ -119,7 +119,9 @@ Definition T_ERR_NOBUF : N := 327684.      (* 00 05 00 04 *)
 Definition t_ack (blk : N) : N := (262144 + blk)%N.
 
 (* Allow comes first; then the opcode is the second byte (zero when absent); RRQ/WRQ
-   answer only if filename and mode are both NUL-terminated; DATA always answers *)
+   answer only if filename and mode are both NUL-terminated; DATA answers unless the
+   datagram ends right after the opcode (reading the block number hits end of stream;
+   the end of stream after it counts as an empty last block) *)
 Definition tftp_script (st : tstate) (d : dgram) : list step :=
   let p := d_payload d in
   let ty := nth 1 p 0%N in
@@ -128,7 +130,8 @@ Definition tftp_script (st : tstate) (d : dgram) : list step :=
   (if (ty =? 1)%N then (if (2 <=? count_nul rem)%nat then [SReply T_ERR_NOTFOUND] else [])
    else if (ty =? 2)%N then (if (2 <=? count_nul rem)%nat then [SReply T_ACK0] else [])
    else if (ty =? 3)%N then
-     (if has_buf st (d_key d, d_port d)
+     (if (length p <=? 2)%nat then []
+      else if has_buf st (d_key d, d_port d)
       then [SReply (t_ack (nth 2 p 0 * 256 + nth 3 p 0)%N)] else [SReply T_ERR_NOBUF])
    else []).
 
@@ -140,7 +143,8 @@ Definition tftp_next (st : tstate) (d : dgram) (granted : bool) : tstate :=
   let a := (d_key d, d_port d) in
   if (ty =? 2)%N then (if (2 <=? count_nul (skipn 2 p))%nat then a :: del_buf st a else st)
   else if (ty =? 3)%N then
-    (if has_buf st a then
+    (if (length p <=? 2)%nat then st
+     else if has_buf st a then
        (if Z.min 512 (Z.max 0 (zlen p - 4)) =? 512 then st else del_buf st a)
      else st)
   else st.
@@ -182,17 +186,14 @@ Definition atoi (s : bytes) : option Z :=
          else None
   end.
 
-(* Go int arithmetic wraps around *)
-Definition wrap64 (z : Z) : Z := (z + 9223372036854775808) mod 18446744073709551616 - 9223372036854775808.
-
 Definition is_store (w : bytes) : bool :=
   existsb (eqb_bytes w) [bs "add"; bs "replace"; bs "prepend"; bs "append"; bs "cas"; bs "set"].
 
 Definition M_OK : N := 1.  Definition M_STATS : N := 2.  Definition M_STORED : N := 3.  Definition M_ERROR : N := 4.
 
-(* one iteration of the command loop over what is buffered (exact for datagrams of at
-   most 4096 bytes, the bufio buffer size); one Allow per command line, before its
-   reply; [rec] is the rest of the loop *)
+(* one iteration of the command loop; one Allow per command line, before its reply;
+   [rec] is the rest of the loop.  A storage command's data block is read by its
+   declared length: io.ReadFull of min(count, 80) bytes, then Discard(count - n + 2) *)
 Definition mc_step (rec : bytes -> list step) (rem : bytes) : list step :=
   match split_at_nl rem with
   | None => []
@@ -207,10 +208,11 @@ Definition mc_step (rec : bytes -> list step) (rem : bytes) : list step :=
         else match atoi (nth 4 parts []) with
              | None => []
              | Some v =>
-                 let n := Z.min 80 (zlen rest) in                 (* b.Read(buff[80]) *)
+                 if v <? 0 then [] else
+                 let n := Z.min (Z.min v 80) (zlen rest) in         (* io.ReadFull(b, buff[:min(count,80)]) *)
+                 if (0 <? v) && (n =? 0) then [] else               (* nothing left of the block: error *)
                  let rest1 := skipn (Z.to_nat n) rest in
-                 let cnt := wrap64 (v - n) in                     (* count -= n; b.Discard(count) *)
-                 let rest2 := if 0 <? cnt then skipn (Z.to_nat (Z.min cnt (zlen rest1))) rest1 else rest1 in
+                 let rest2 := skipn (Z.to_nat (Z.min (v - n + 2) (zlen rest1))) rest1 in   (* b.Discard(count-n+2) *)
                  SReply M_STORED :: rec rest2
              end)
      else SReply M_ERROR :: rec rest)
@@ -271,6 +273,14 @@ Fixpoint run (s : svc) (st : tstate) (l : limiter) (h : list dgram) : list (list
 
 (* a new service instance: services.NewLimiter(), no buffers *)
 Definition trace (s : svc) (h : list dgram) : list event := concat (run s [] [] h).
+
+(* ---- projections of the events of one datagram ---- *)
+Definition ev_replies (ev : list event) : list N :=
+  flat_map (fun e => match e with EReply _ _ c => [c] | _ => [] end) ev.
+Definition ev_panic (ev : list event) : bool :=
+  existsb (fun e => match e with EPanic _ => true | _ => false end) ev.
+Definition ev_denied (ev : list event) : bool :=
+  existsb (fun e => match e with EAsk _ _ false => true | _ => false end) ev.
 
 (* ---- counting ---- *)
 Definition in_win (a w t : Z) : bool := (a <=? t) && (t <? a + w).
